@@ -623,6 +623,108 @@ func (c *c04Ctx) checkSizeFieldHeader(hc hdrCase, records []byte) error {
 	return nil
 }
 
+// ---------------------------------------------------------------- hand-made Header values
+
+// checkHeaderValue calls Header.CheckIntegrity on a Header value built by hand (any Size), under recover, and
+// compares it with the model; for sizes other than 12 and 14 it also runs the decoding entry points on bytes
+// starting with that size byte: all must reject with a non-integrity error.
+func (c *c04Ctx) checkHeaderValue(hv fit.Header, desc string) error {
+	r := c.r
+	cls, pan := c04HeaderCheck(hv)
+	b12 := []byte{hv.Size, hv.ProtocolVersion, byte(hv.ProfileVersion), byte(hv.ProfileVersion >> 8), 0, 0, 0, 0}
+	binary.LittleEndian.PutUint32(b12[4:8], hv.DataSize)
+	b12 = append(b12, hv.DataType[:]...)
+	crc12 := dyncrc16.Checksum(b12)
+	resp, err := c.d.ask(fmt.Sprintf("c04_hval %d %d %d %d %s %d", hv.Size, hv.ProtocolVersion, hv.ProfileVersion, hv.DataSize, hexs(hv.DataType[:]), hv.CRC))
+	if err != nil {
+		return err
+	}
+	model, _ := strconv.Atoi(resp)
+	rep := map[string]interface{}{"kind": "header_value", "desc": desc, "Size": int(hv.Size), "ProtocolVersion": int(hv.ProtocolVersion), "ProfileVersion": int(hv.ProfileVersion),
+		"DataSize": int(hv.DataSize), "DataType_hex": hexs(hv.DataType[:]), "CRC": int(hv.CRC), "crc_of_first_12": int(crc12),
+		"Header.CheckIntegrity": className(cls), "panic": pan, "model": className(model)}
+	r.count(fmt.Sprintf("hval%d|%d|%d|%x|%d", hv.Size, hv.ProtocolVersion, hv.DataSize, hv.DataType, hv.CRC), hv.CRC != 0)
+	badSize := hv.Size != 12 && hv.Size != 14
+	if badSize {
+		r.Hist["hval_size_other"]++
+	} else {
+		r.Hist[fmt.Sprintf("hval_size_%d", hv.Size)]++
+	}
+	r.Hist["hval_"+className(cls)]++
+	if pan != "" {
+		r.specFail("header_check_panics", fmt.Sprintf("Header.CheckIntegrity panics on Header{Size: %d, ProtocolVersion: %#x, DataType: %q, CRC: %#04x}: %s", hv.Size, hv.ProtocolVersion, string(hv.DataType[:]), hv.CRC, pan), rep)
+		return nil
+	}
+	if hv.CRC != 0 && hv.CRC != crc12 && hv.Size != 12 && cls == 0 {
+		r.specFail("hdrcrc_mismatch_accepted", fmt.Sprintf("Header.CheckIntegrity accepts Header{Size: %d, CRC: %#04x} whose contents have checksum %#04x", hv.Size, hv.CRC, crc12), rep)
+	}
+	if badSize && cls != 1 {
+		r.specFail("header_bad_size", fmt.Sprintf("Header.CheckIntegrity returns %s for Size %d (neither 12 nor 14); the decoder rejects that size with a format error", className(cls), hv.Size), rep)
+	}
+	if cls != model {
+		r.corrFail("header_value", fmt.Sprintf("Header.CheckIntegrity on Header{Size: %d, ...}: implementation %s, model %s", hv.Size, className(cls), className(model)), rep)
+	}
+	if badSize {
+		// the decoding entry points on bytes starting with that size byte
+		file := append(append([]byte{}, b12...), byte(hv.CRC), byte(hv.CRC>>8), 0x40, 0, 0, 0, 0, 0)
+		a1, _ := c04Integrity(file, true, nil)
+		a2, _, _ := c04DecodeHeader(file)
+		a3, _ := c04Decode(file, nil)
+		a4, _ := c04Integrity(file, false, nil)
+		if a1 != 1 || a2 != 1 || a3 != 1 || a4 != 1 {
+			r.specFail("header_apis_disagree", fmt.Sprintf("size byte %d: CheckIntegrity(r,true) %s, DecodeHeader %s, Decode %s, CheckIntegrity(r,false) %s, Header.CheckIntegrity %s",
+				hv.Size, className(a1), className(a2), className(a3), className(a4), className(cls)), rep)
+		}
+	}
+	r.Traces++
+	return nil
+}
+
+// headerValues: every Size 0..255 x CRC zero / non-zero (1, random, the matching one) x legal / illegal other fields
+func (c *c04Ctx) headerValues() []struct {
+	h    fit.Header
+	desc string
+} {
+	var out []struct {
+		h    fit.Header
+		desc string
+	}
+	// Size 13 (between the two legal sizes) first, then every other value
+	sizes := []int{13}
+	for sz := 0; sz < 256; sz++ {
+		if sz != 13 {
+			sizes = append(sizes, sz)
+		}
+	}
+	for _, sz := range sizes {
+		for _, other := range []string{"legal", "proto", "dtype"} {
+			h := fit.Header{Size: byte(sz), ProtocolVersion: 0x20, ProfileVersion: 2134, DataSize: uint32(c.rg.intn(1 << 16))}
+			copy(h.DataType[:], ".FIT")
+			switch other {
+			case "proto":
+				h.ProtocolVersion = 0x30 + byte(c.rg.intn(0xD0))
+			case "dtype":
+				h.DataType[c.rg.intn(4)] ^= 1 << uint(c.rg.intn(8))
+			}
+			b12 := []byte{h.Size, h.ProtocolVersion, byte(h.ProfileVersion), byte(h.ProfileVersion >> 8), 0, 0, 0, 0}
+			binary.LittleEndian.PutUint32(b12[4:8], h.DataSize)
+			b12 = append(b12, h.DataType[:]...)
+			for _, crc := range []struct {
+				v uint16
+				d string
+			}{{0, "crc0"}, {1, "crc1"}, {uint16(1 + c.rg.intn(65535)), "crcrandom"}, {dyncrc16.Checksum(b12), "crcmatching"}} {
+				g := h
+				g.CRC = crc.v
+				out = append(out, struct {
+					h    fit.Header
+					desc string
+				}{g, fmt.Sprintf("size%d/%s/%s", sz, other, crc.d)})
+			}
+		}
+	}
+	return out
+}
+
 // ---------------------------------------------------------------- file sources
 
 func c04SmallStream(rg *rng, st genStats, maxRecords int) c04File {
@@ -707,7 +809,7 @@ func runC04(args []string) int {
 		"burst: per small valid file every bit position x {1 bit, all 2-bit patterns within 16 bits, random <=16-bit patterns} and all 65535 patterns at sampled " +
 		"positions (LSB-first stream numbering), excluding patterns touching byte 0 and bytes 4..7 -> real Decode and CheckIntegrity must both return an error; " +
 		"a sample is compared with the extracted spec verdict (bitwise CRC-16/ARC) and the extracted decoder model; header: 14 header bytes x single-bit flips x " +
-		"stored checksum correct/zero/random/recomputed, 12-byte headers, all protocol bytes through CheckIntegrity(true/false), DecodeHeader, Decode, Header.CheckIntegrity; " +
+		"stored checksum correct/zero/random/recomputed, 12-byte headers, all protocol bytes, and hand-made Header values with every Size 0..255 x CRC zero/non-zero x legal/illegal fields through CheckIntegrity(true/false), DecodeHeader, Decode, Header.CheckIntegrity; " +
 		"evaluations = corrupted decodes + accepted files + header cases; non-trivial = file accepted and longer than 30 bytes / burst applied / stored checksum non-zero"
 	// the extracted list functions recurse once per byte: give the co-process a deep stack for the large corpus files
 	var rl syscall.Rlimit
@@ -1006,6 +1108,11 @@ func runC04(args []string) int {
 			return fail(err)
 		}
 	}
+	for _, hv := range c.headerValues() {
+		if err := c.checkHeaderValue(hv.h, hv.desc); err != nil {
+			return fail(err)
+		}
+	}
 	for k, v := range st {
 		if strings.HasPrefix(k, "filetype_") || strings.HasPrefix(k, "header_") || k == "big_endian" || k == "little_endian" {
 			r.Hist["gen_"+k] = v
@@ -1065,6 +1172,15 @@ func (c *c04Ctx) replay(path string) int {
 			err = c.checkSizeFieldHeader(hdrCase{h, str("desc")}, recs)
 		}
 		if err != nil {
+			fmt.Println("driver:", err)
+			return 2
+		}
+	case "header_value":
+		hv := fit.Header{Size: byte(num("Size")), ProtocolVersion: byte(num("ProtocolVersion")), ProfileVersion: uint16(num("ProfileVersion")),
+			DataSize: uint32(num("DataSize")), CRC: uint16(num("CRC"))}
+		dt, _ := hex.DecodeString(str("DataType_hex"))
+		copy(hv.DataType[:], dt)
+		if err := c.checkHeaderValue(hv, str("desc")); err != nil {
 			fmt.Println("driver:", err)
 			return 2
 		}
